@@ -722,6 +722,7 @@ K_ANDSWAP = "cexpr:crash:gen_O2_zero_extension_of_and_with_constant_first"
 K_BFALIAS = "cexpr:bitfield:bool_member_initialiser_alias"
 K_ADDR = "cexpr:local:narrow_object_stored_through_pointer_then_read"
 K_LOSTCOPY = "cstmt:gen_O2:postincrement_loop_test_lost_copy"
+K_SIZEOF_INT = "cscope:sizeof_expression_has_type_int"
 K_DECL_TU = "cdecl:tentative_array_of_unknown_size_completed_by_another_declaration"
 K_INIT_OVR = "cinit:static:later_initialiser_of_same_scalar_ignored"
 K_INIT_PAS = "cinit:positional_initialiser_after_string_literal_member"
@@ -753,7 +754,11 @@ def classify(fails):
             keyed.append(("cbytes:%s:%s" % ("+".join(fields), c["sig"]), r))
             continue
         if c["fam"] == "gen":
-            keyed.append(("c%s:%s:%s" % (c["gfam"], "+".join(fields), c["sig"]), r))
+            # `sizeof expression` has type int in c2mir (size_t for `sizeof (type-name)`): only the printed type name differs
+            if c["gfam"] == "scope" and c["sig"].startswith("sz:obj_") and fields == ["field0"] and ef[0] == "ul" and got[0] == "i":
+                keyed.append((K_SIZEOF_INT, r))
+            else:
+                keyed.append(("c%s:%s:%s" % (c["gfam"], "+".join(fields), c["sig"]), r))
             continue
         if c["fam"] == "decl":
             # `int a[]; int a[3];`: c2mir sizes the object by the first tentative definition (4 bytes), uses run behind it
@@ -896,6 +901,8 @@ def describe(c):
         return c["body"][:500]
     if c["fam"] == "init":
         return "struct S x = " + c["init"]
+    if c["fam"] == "gen" and c.get("desc"):
+        return c["desc"].replace("@", "")[:600]
     if c["fam"] == "gen":
         return (" ".join(c["glob"][-3:]) + " / " + " ".join(c["body"]) + " / " + " ".join(e for _, e in c["pr"][:3]))[:600]
     if c["fam"] == "decl":
